@@ -2,12 +2,16 @@ import RpmVerif.Driver.Common
 import RpmVerif.Model.Header
 import RpmVerif.Model.Cpio
 import RpmVerif.Driver.FileIterObs
+import RpmVerif.Model.PayloadWriter
 /-!
 Driver for C07 (see harness/src/c07.rs for the request and observation formats).
 
-* `files comp=… large=… f=<hexdest>:<octperm>:<size>:<kind><seed> …` — the harness BUILT the package
-  with the real builder.  Model = `buildFiles` (BTreeMap by cpio path) + `builderArchive[Large]` +
-  `iterate`, all from `Model/Cpio.lean`; the contents are regenerated from the seeds.  Spec = the
+* `files comp=… large=… [thr=N] f=<hexdest>:<octperm>:<size>:<kind><seed> …` — the harness BUILT the package
+  with the real builder.  Model = `buildFiles` (BTreeMap by cpio path) + the large-file switch
+  (`PWriter.usesLargeFiles`, or `combined > N` under the hook's threshold) + the archive: standard mode through the
+  `payload::Writer` STATE MACHINE (`PWriter.builderArchiveW` into an all-accepting sink — equal to
+  `Cpio.builderArchive` by `builder_archive_writer`), large-file mode `builderArchiveLarge` + the drained iterator
+  (`FileIter.collectMem`); the contents are regenerated from the seeds.  Spec = the
   property read literally: the files given, ordered by cpio path, each with its exact bytes, its own
   mode, |content| = recorded size, SHA-256 matching the recorded digest (`dg`, computed by the harness).
 * `filesraw <package>` — a hand-assembled foreign package.  Model = `Hdr.parsePackage` + the subset of
@@ -161,8 +165,16 @@ def handleFiles (args : List String) (impl : String) : String :=
     let fs := buildFiles given
     let sizes := fs.map (·.content.length)
     let combined := sizes.foldl (· + ·) 0
-    let usesLarge := large && combined > 0
-    let archive := if usesLarge then builderArchiveLarge fs else builderArchive 0 0 fs
+    let thr : Option Nat := (args.find? (·.startsWith "thr=")).bind fun t => (t.drop 4).toString.toNat?
+    -- `combined_file_sizes > u32::MAX`, or the hook's threshold
+    let usesLarge := match thr with
+      | some n => decide (combined > n)
+      | none => if large then decide (combined > 0) else RpmVerif.PWriter.usesLargeFiles fs
+    -- standard mode: every entry goes through the `payload::Writer` state machine (sink = the in-memory archive)
+    let written := if usesLarge then (Out.ok (), ({ out := builderArchiveLarge fs } : RpmVerif.PWriter.Sink))
+                   else RpmVerif.PWriter.builderArchiveW 0 0 fs {}
+    if written.1 != Out.ok () then answer "err-build" "fails:err" "built-writer-refused" else
+    let archive := written.2.out
     let hpaths := fs.map fun f => headerPath f.path
     let all := collectMem archive hpaths sizes
     let (cs, errAt) := splitIter ((uptoErr all).map (Out.map fun x => (x.1, x.2.2)))
@@ -189,7 +201,10 @@ def handleFiles (args : List String) (impl : String) : String :=
             | "none" => "holds"
             | c => "fails:" ++ c
     let szClass := if sizes.any (· ≥ 1000000) then "-MiB" else if sizes.any (· ≥ 4095) then "-4k+" else ""
-    let branch := s!"built-{compOf args}-{if usesLarge then "stripped" else "newc"}-n{min fs.length 3}{szClass}" ++
+    let thrClass := match thr with
+      | some n => if combined == n then "-thr=" else if combined == n + 1 then "-thr+1" else "-thr"
+      | none => ""
+    let branch := s!"built-{compOf args}-{if usesLarge then "stripped" else "newc"}-n{min fs.length 3}{szClass}{thrClass}" ++
       (if dup then "-dup" else "") ++ (if tooLong then "-name>4095" else "")
     answer model verdict branch
 
